@@ -71,6 +71,9 @@ def tie_cases(N):
         for b in range(0, 4):
             for f in range(-1, a + b + 1):
                 cases.append('pools %d %d %d' % (a, b, f))
+    for n in (0, 1, 4, 5, 16, 17, 21):                  # ... with its pointer array (grows at the 5th segment): block level, sizes
+        for k in range(-1, n + n // 4 + 4):
+            cases.append('sa2 %d %d' % (n, k))
     for n in (0, 1, 3, 4, 5, 9):                        # SegmentedArray range constructor, 4 items per segment
         for c in range(-1, n + 1):
             cases.append('sa %d %d' % (n, c))
@@ -300,7 +303,7 @@ def replay(ctx, rp):
     if case.split()[0] in ('dt', 'hmm'):
         harness = exes.get('tie2')
     have_model = ctx.prove() and ctx.extract()
-    if case.split()[0] in ('om', 'arr', 'hs', 'ts', 'crew', 'pools', 'tsn', 'hsf', 'sa', 'grow', 'growa', 'dt', 'hmm'):
+    if case.split()[0] in ('om', 'arr', 'hs', 'ts', 'crew', 'pools', 'tsn', 'hsf', 'sa', 'sa2', 'grow', 'growa', 'dt', 'hmm'):
         if harness is None or not have_model:
             print('cannot build harness/model'); return 2
         mism, _ = ctx.correspond('replay', [case], [harness], [ctx.model_exe], stage=False)
@@ -356,7 +359,7 @@ def run(ctx):
         for (i, c, a, b) in mism[:3]:
             ctx.violation('resource-machine model and implementation disagree on the event trace', {'case': c, 'impl': a, 'model': b,
                           'cmd': 'echo "%s" | build/C03/harness' % c}, found_input=True)
-        ctx.coverage.setdefault('input_distribution', {})['tie_cases'] = {k: sum(1 for c in cases if c.split()[0] == k) for k in ('om', 'arr', 'hs', 'ts', 'crew', 'pools', 'tsn', 'hsf', 'sa', 'grow', 'growa', 'dt', 'hmm')}
+        ctx.coverage.setdefault('input_distribution', {})['tie_cases'] = {k: sum(1 for c in cases if c.split()[0] == k) for k in ('om', 'arr', 'hs', 'ts', 'crew', 'pools', 'tsn', 'hsf', 'sa', 'sa2', 'grow', 'growa', 'dt', 'hmm')}
         for c in cases[::max(1, len(cases) // 4)][:4]:
             ctx.add_sample(c)
     # ---- oracle / search on the real code
